@@ -251,6 +251,25 @@ CHECKS.update(
     ),
 )
 
+CHECKS.update(
+    C14=dict(
+        category="model_checking",
+        text="Bounded model checking by SMT: the synchronisation skeleton of lock_tty's wrapper, of the Process.start wrapper (lock hand-over) "
+        "and of the Process.run wrapper (adoption in the child) is extracted from the current source with ast; scenarios (2-3 threads, a "
+        "start racing with calls, children, a grandchild, nested re-entrant calls; fork and spawn) are unrolled for K scheduler steps into a "
+        "finite-domain z3 transition relation (program counters, per-thread lock temporaries and held-lock stacks, per-process globals, "
+        "lock owner/count) with one scheduler-choice variable per step; K covers every complete interleaving of the scenario. Queries: "
+        "no reachable state has two agents inside synchronized bodies; no reachable state is a deadlock. A sat trace is replayed on the real "
+        "wrappers with real threads and instrumented locks under a controller enforcing the schedule.",
+        note="Trusted: the environment model of threading/multiprocessing locks and process start (stated in the evidence), the ast "
+        "skeleton extractor (fails loudly on unknown shapes), z3. Agents and steps bounded per scenario; real OS scheduling and "
+        "multiprocessing internals are outside the claim.",
+        design="3 C14",
+        technique="SMT-based bounded model checking (z3 QF_FD) of the lock protocol extracted from the source, with schedule replay on real threads",
+        engine="sx (Engine B)",
+    ),
+)
+
 PENDING = {}
 
 
